@@ -19,6 +19,19 @@ LEVEL = "exploration"
 WD = gwfh.WD
 
 
+class Reiterable:
+    """A user-defined container: iterable any number of times, but neither a Mapping nor a Sequence nor a Set."""
+
+    def __init__(self, items):
+        self._items = list(items)
+
+    def __iter__(self):
+        return iter(self._items)
+
+
+NOCLI = ("dictvalues", "customiter", "dictvalues_nested")  # cannot be written as a literal in workflow.py by repr()
+
+
 def shapes(paths):
     """All container shapes (by class) holding exactly the given list of path strings."""
     k = len(paths)
@@ -42,6 +55,8 @@ def shapes(paths):
             ("dict_list_plus_empty", lambda p: {"a": [p[0]], "b": []}),
             ("list_plus_empty", lambda p: [p[0], []]),
             ("dict_in_list", lambda p: [{"a": p[0]}]),
+            ("dictvalues", lambda p: {"a": p[0]}.values()),
+            ("customiter", lambda p: Reiterable([p[0]])),
         ]
     if k == 2:
         return [
@@ -55,6 +70,8 @@ def shapes(paths):
             ("dict_mixed", lambda p: {"a": p[0], "b": [p[1]], "c": []}),
             ("mixed", lambda p: [{"a": p[0]}, p[1]]),
             ("reversed", lambda p: [p[1], p[0]]),
+            ("dictvalues", lambda p: {"a": p[0], "b": p[1]}.values()),
+            ("dictvalues_nested", lambda p: [{"a": [p[0]]}.values(), Reiterable([p[1]])]),
         ]
     return [
         ("list", lambda p: list(p)),
@@ -269,6 +286,8 @@ def cli_items(K_in=1, K_out=2):
             outs = [f"o{j}" for j in range(ko)]
             for si, _ in shapes(ins):
                 for so, _ in shapes(outs):
+                    if si in NOCLI or so in NOCLI:
+                        continue
                     items.append((ki, ko, si, so))
     return items
 
